@@ -27,10 +27,10 @@ mutual
     | tuple xs => simp only [comparable] at hx; simp only [eq]; exact eqList_refl_tuple num xs hx
     | dict s xs =>
       simp only [comparable, Bool.and_eq_true] at hx
-      rw [eq_dict]; exact eqD_refl ok num xs hx.1 hx.2
+      rw [eq_dict]; exact eqD_refl ok num none xs hx.1 hx.2
     | obj c xs =>
       simp only [comparable, Bool.and_eq_true] at hx
-      rw [eq_obj, eqD_refl ok num xs hx.1 hx.2]; simp
+      rw [eq_obj, eqD_refl ok num (some (env.fields c)) xs hx.1 hx.2]; simp
   theorem eqList_refl (ok : EnvOk env) (num : Bool) (xs : List Val)
       (hx : comparableList env num xs = true) : eqList xs xs = true := by
     cases xs with
@@ -38,15 +38,15 @@ mutual
     | cons x xs =>
       simp only [comparableList, Bool.and_eq_true] at hx
       simp [eqList, eq_refl ok num x hx.1, eqList_refl ok num xs hx.2]
-  theorem eqD_refl (ok : EnvOk env) (num : Bool) (xs : List (Atom × Val))
-      (ax : ascKeys env xs = true) (hx : comparableItems env num xs = true) : eqD xs xs = true := by
+  theorem eqD_refl (ok : EnvOk env) (num : Bool) (sh : Option (List Atom)) (xs : List (Atom × Val))
+      (ax : keysOk env sh xs = true) (hx : comparableItems env num xs = true) : eqD xs xs = true := by
     cases xs with
     | nil => exact eqD_nil
     | cons p xs =>
       obtain ⟨k, v⟩ := p
       simp only [comparableItems, Bool.and_eq_true] at hx
       rw [eqD_cons_eq ok ax ax (atomEq_refl k), eq_refl ok num v hx.1,
-        eqD_refl ok num xs (ascKeys_cons ax).2 hx.2]
+        eqD_refl ok num (shTail sh) xs (keysOk_tail ax) hx.2]
       rfl
 end
 
@@ -165,7 +165,7 @@ mutual
             simp only [comparable, Bool.and_eq_true] at hx hy
             rw [eq_dict] at he
             simp only [evalHash, evalHashList,
-              hashItems_congr ok hH num xs ys t1 t2 hx.1 hx.2 hy.1 hy.2 he hxs hys]
+              hashItems_congr ok hH num none xs ys t1 t2 hx.1 hx.2 hy.1 hy.2 he hxs hys]
       | _ => simp [eq] at he
     | obj c xs =>
       cases y with
@@ -183,7 +183,7 @@ mutual
             obtain ⟨hcd, he⟩ := he
             subst hcd
             simp only [evalHash, evalHashList,
-              hashItems_congr ok hH num xs ys t1 t2 hx.1 hx.2 hy.1 hy.2 he hxs hys]
+              hashItems_congr ok hH num (some (env.fields c)) xs ys t1 t2 hx.1 hx.2 hy.1 hy.2 he hxs hys]
       | _ => simp [eq] at he
   theorem hashList_congr (ok : EnvOk env) {H : PyHash} (hH : HashOk H) (num : Bool) (xs : List Val) :
       ∀ (ys : List Val) (txs tys : List HTerm), comparableList env num xs = true →
@@ -215,10 +215,10 @@ mutual
                 simp only [evalHashList]
                 rw [hash_congr ok hH num x y tx ty hx.1 hy.1 he.1 hx1 hy1,
                   hashList_congr ok hH num xs ys t1 t2 hx.2 hy.2 he.2 hxs hys]
-  theorem hashItems_congr (ok : EnvOk env) {H : PyHash} (hH : HashOk H) (num : Bool) (xs : List (Atom × Val)) :
+  theorem hashItems_congr (ok : EnvOk env) {H : PyHash} (hH : HashOk H) (num : Bool) (sh : Option (List Atom)) (xs : List (Atom × Val)) :
       ∀ (ys : List (Atom × Val)) (txs tys : List HTerm),
-      ascKeys env xs = true → comparableItems env num xs = true →
-      ascKeys env ys = true → comparableItems env num ys = true → eqD xs ys = true →
+      keysOk env sh xs = true → comparableItems env num xs = true →
+      keysOk env sh ys = true → comparableItems env num ys = true → eqD xs ys = true →
       hashItems xs = .ok txs → hashItems ys = .ok tys → evalHashList H txs = evalHashList H tys := by
     intro ys txs tys ax hx ay hy he h1 h2
     cases xs with
@@ -249,8 +249,8 @@ mutual
                 | ok t2 =>
                   simp [hx1, hxs] at h1; simp [hy1, hys] at h2; subst h1; subst h2
                   have e1 := hash_congr ok hH num v w tx ty hx.1 hy.1 he.1 hx1 hy1
-                  have e2 := hashItems_congr ok hH num xs ys t1 t2 (ascKeys_cons ax).2 hx.2
-                    (ascKeys_cons ay).2 hy.2 he.2 hxs hys
+                  have e2 := hashItems_congr ok hH num (shTail sh) xs ys t1 t2 (keysOk_tail ax) hx.2
+                    (keysOk_tail ay) hy.2 he.2 hxs hys
                   rw [← isMissing_congr he.1]
                   cases isMissing v
                   · simp only [Bool.false_eq_true, if_false, evalHashList, evalHash]
